@@ -25,8 +25,9 @@ prop("C10", "fault_enumeration",
      "{original first byte, each other valid type byte} x {bytes 4..8 kept, live session id} against 7 server "
      "state/configuration pairs and 5 client states. Non-trivial = at least one structured (derived-from-valid or "
      "hostile-parameter) datagram aimed at a non-idle state; distinct by (target, state, configuration, set of datagram classes). "
-     "The exhaustive flag refers to the sweep in the thorough tier (quick: handshaking clients see server-sent messages with the "
-     "types a client reads and only the first 64 bytes of client-sent messages). Trigger classes of process-killing findings "
+     "The exhaustive flag refers to the sweep in the thorough tier only, and only when no datagram of it had to be excluded "
+     "because of an open finding (quick: handshaking clients see server-sent messages with the types a client reads and only "
+     "the first 64 bytes of client-sent messages). Trigger classes of process-killing findings "
      "that are listed open are excluded by construction and counted (excluded_by_construction / labels excluded:<sig>).",
      ["junk is never authentic for a live session: no datagram sealed with a live session's keys is injected (the only messages "
       "that may legitimately end a session); replays of already delivered genuine datagrams are included",
@@ -40,7 +41,7 @@ prop("C10", "fault_enumeration",
      [dict(name="random", pkg="transport", run="^TestVerifC10Random$", shards=dict(quick=16, thorough=16), thorough_scale=60, timeout=dict(quick=900, thorough=7200)),
       dict(name="sweep", pkg="transport", run="^TestVerifC10Sweep$", shards=dict(quick=16, thorough=16), timeout=dict(quick=900, thorough=7200)),
       dict(name="fuzz", kind="fuzz", pkg="transport", targets=["FuzzVerifC10ServerDatagram", "FuzzVerifC10ClientDatagram"], fuzztime=120, thorough_only=True)],
-     exhaustive_core=False,
+     exhaustive_core=True,
      text="Hostile-datagram search against real transport endpoints under a virtual clock: generated junk sequences (random, "
           "truncated / field-mutated valid messages, copied public headers, hostile server names, hidden requests for every "
           "certificate) hit servers and clients in every state and configuration; crash, liveness of established sessions and "
